@@ -12,17 +12,18 @@ import (
 )
 
 // Value representation (after x/tools/go/ssa/interp):
-//   *Term            bool and all integer kinds (Bool / BitVec sorts)
-//   Float            float32/float64: concrete, unknown, or Real-sorted term
-//   string           concrete strings
-//   *Value           pointers (nil pointer = (*Value)(nil))
-//   Array, Struct    aggregates ([]Value), copied on load/store
-//   Slice            []Value with Go's own len/cap/aliasing semantics
-//   *Map, *Chan      reference objects
-//   Iface            interface value (dynamic type + value)
-//   *ssa.Function, *ssa.Builtin, *Closure   function values
-//   Tuple            multi-value results
-//   UPtr             unsafe pointer to a slice element (keeps backing store)
+//
+//	*Term            bool and all integer kinds (Bool / BitVec sorts)
+//	Float            float32/float64: concrete, unknown, or Real-sorted term
+//	string           concrete strings
+//	*Value           pointers (nil pointer = (*Value)(nil))
+//	Array, Struct    aggregates ([]Value), copied on load/store
+//	Slice            []Value with Go's own len/cap/aliasing semantics
+//	*Map, *Chan      reference objects
+//	Iface            interface value (dynamic type + value)
+//	*ssa.Function, *ssa.Builtin, *Closure   function values
+//	Tuple            multi-value results
+//	UPtr             unsafe pointer to a slice element (keeps backing store)
 type Value interface{}
 
 type Array []Value
